@@ -365,7 +365,7 @@ NEIGHBOUR_BEFORE = 11
 NEIGHBOUR_AFTER = 'zz"z'
 
 
-def build_grid(hz, position, value, version, value2=None):
+def build_grid(hz, position, value, version, value2=None, reorder=None):
     """2 columns x 2 rows skeleton with concrete neighbours of other kinds; `value` placed at `position`"""
     D = sys.modules['hszinc.datatypes']
     meta = [('dis', 'meta, "x"')]
@@ -394,6 +394,23 @@ def build_grid(hz, position, value, version, value2=None):
     g.append({'c1': NEIGHBOUR_BEFORE, 'c2': NEIGHBOUR_AFTER})
     g.append({'c1': cell, 'c2': NEIGHBOUR_AFTER if value2 is None else value2})      # value2: a second symbolic payload in the adjacent cell
     g.append({'c2': D.MARKER})
+    if reorder is not None:
+        # columns / metadata / column metadata put in another order after they were created (positioned insert, relocation,
+        # reverse, sort): the documented order is the map's order, not the order of creation
+        if reorder == 0:
+            g.column.add_item('c2', g.column['c2'], index=0)
+        elif reorder == 1:
+            g.column.reverse()
+            g.metadata.reverse()
+        elif reorder == 2:
+            g.metadata.sort()
+            g.column['c2'].sort()
+        elif reorder == 3:
+            g.column['c2'].add_item('last', g.column['c2']['last'], pos_key='unit')
+            g.metadata.add_item('mk', D.MARKER, index=0)
+        else:
+            g.column.add_item('c0', hz.MetadataObject() if hasattr(hz, 'MetadataObject') else {}, pos_key='c2')
+            g.metadata.add_item('first', 1, index=0)
     return g
 
 
@@ -561,7 +578,15 @@ def catalogue(hz, version, extra=None):
             datetime.datetime(2021, 6, 1, 0, 0, 0, tzinfo=datetime.timezone(datetime.timedelta(hours=5, minutes=45))),
             D.Coordinate(37.5, -122.25), D.Coordinate(-90, 180), D.Coordinate(0.123456, 0), D.Coordinate(-0.5, 0.000001),
             D.Ref('a-b.c:d~e_1'), D.Ref('x', 'dis play'), D.Ref('x', ''), D.Bin('text/plain'), D.Uri('http://a/b?c=d&e#f'), D.Uri(''),
-            '', 'plain', 'n:1', 'T', '2020-01-01', u'\u20ac\U0001f600']
+            '', 'plain', 'n:1', 'T', '2020-01-01', u'\u20ac\U0001f600',
+            # magnitudes at which a writer may switch notation or drop digits
+            12345678901234567890.0, float(2 ** 64 - 1), 1.2345678901234567e25, 123456789012345.678, 1e16, 1.2345678e16, 9007199254740993.0,
+            -9.87654321987e17, 1e15, 999999999999999.9, 1.5e-5, 0.000123456, D.Quantity(1.2345678901234567e19, 'ns'), D.Quantity(1.5e-5, 'm'),
+            D.Coordinate(51.4779, -0.0000514), D.Coordinate(0.00001234, 9.45), D.Coordinate(89.9999999, -179.9999999), D.Coordinate(1e-7, -1e-7),
+            # long payloads (line wrapping, chunking)
+            'x' * 300, D.Uri('http://h/' + 'p/' * 100), D.Ref('r' * 80, 'd ' * 60),
+            # header maps put in another order after creation
+            ('reorder', 0, 7.5), ('reorder', 1, 'v'), ('reorder', 2, D.MARKER), ('reorder', 3, 1), ('reorder', 4, D.Uri('u'))]
     if extra == 'zones':
         vals = []
         for name in sorted(Z.get_tz_map().keys()):
@@ -589,7 +614,10 @@ def catalogue(hz, version, extra=None):
         ng = hz.Grid(version=version, columns=[('k', [])])
         ng.append({'k': 1})
         eg = hz.Grid(version=version, columns=[('e', [])])
+        import base64 as _b64
         vals += [D.NA, D.XStr('hex', 'deadbeef'), D.XStr('b64', '3q2+7w=='), D.XStr('Span', 'today'),
+                 D.XStr('b64', _b64.b64encode(bytes(range(60))).decode('ascii')), D.XStr('b64', _b64.b64encode(bytes(range(200))).decode('ascii')),
+                 D.XStr('hex', 'ab' * 70), D.XStr('Str', 'line\n'), D.XStr('Str', 'abc=\n'), D.XStr('Note', 'x' * 200),
                  [], [1, 'a', D.MARKER, None, D.Ref('r')], [[1], [2, [3, 'x']]], {}, {'a': 1, 'b': D.MARKER, 'c': 'x y'},
                  [{'k': [D.NA, {'z': 2}]}], ng, eg, [ng, 5], {'g': ng},
                  # homogeneous collections (a fast path for "all plain numbers / all strings" is a classic slip)
@@ -621,8 +649,11 @@ def run_catalog(job):
 def check_concrete(hz, job, value, position, value2=None):
     fmt, version = job['fmt'], job['version']
     multi = job.get('multi', False)
+    reorder = None
+    if isinstance(value, tuple) and value and value[0] == 'reorder':
+        reorder, value = value[1], value[2]
     if job.get('assert') in ('zincref', 'jsonref'):
-        g = build_grid(hz, position, value, version, value2)
+        g = build_grid(hz, position, value, version, value2, reorder)
         try:
             with contextlib.redirect_stdout(io.StringIO()):
                 msg, f = (writer_vs_reference if job['assert'] == 'zincref' else json_writer_vs_reference)(hz, g, multi, False)
@@ -632,7 +663,7 @@ def check_concrete(hz, job, value, position, value2=None):
             msg = 'the reference reader recovers a different grid'
         return msg
     opts = dict(six_decimals=(fmt == 'json'), ordered_meta=True)
-    g = build_grid(hz, position, value, version, value2)
+    g = build_grid(hz, position, value, version, value2, reorder)
     mode = hz.MODE_ZINC if fmt == 'zinc' else hz.MODE_JSON
     try:
         with contextlib.redirect_stdout(io.StringIO()):
